@@ -44,7 +44,7 @@ prop('C03',
      technique='table agreement; decision-table extraction over the complete finite domain of the decision variables')
 
 prop('C04',
-     rules=['EXC-VISITOR', 'TAB-OPS', 'TAB-BRK', 'TAB-QUOTE', ('EXC-FMT', ['abbreviation']), ('CNT-DEPTH', ['abbreviation']), 'API-SPLITLINES', 'SIB-SPLITLINES', 'SIB-QUOTE', 'PATH-EMIT-HTML', 'PATH-EMIT-INDENT'],
+     rules=['EXC-VISITOR', 'TAB-OPS', 'TAB-BRK', 'TAB-QUOTE', ('EXC-FMT', ['abbreviation']), ('CNT-DEPTH', ['abbreviation']), 'API-SPLITLINES', 'SIB-SPLITLINES', 'SIB-QUOTE', 'PATH-EMIT-HTML', 'PATH-EMIT-INDENT', 'EXC-RET-STR'],
      explanation='Every structural character that can occur inside text has a printer that gives the same character back (D at table level).',
      not_decided=['escape handling, nested brace extraction, placement of wrap text at the deepest node (value-level)',
                   'str.splitlines() also splits on VT/FF/FS/GS/RS/NEL/LS/PS (recorded as known finding by rule API-SPLITLINES when built)'],
@@ -67,7 +67,8 @@ prop('C06',
 
 prop('C07',
      rules=['EXC-RAISE/expand', 'EXC-VISITOR', 'EXC-FMT', 'EXC-JOIN', 'EXC-NUMCONV', 'EXC-KEY', 'TAB-VOCAB', 'TAB-KEYS-PROFILE', 'CENSUS',
-            'SCN-CORE', ('SCN-PROGRESS', EXPAND_MODS), ('SCN-OVER', EXPAND_MODS), 'EXC-RANDINT', 'NUM-LINEAR'],
+            'SCN-CORE', ('SCN-PROGRESS', EXPAND_MODS), ('SCN-OVER', EXPAND_MODS), 'EXC-RANDINT', 'NUM-LINEAR',
+            ('EXC-INDEX', ['abbreviation', 'markup', 'stylesheet', 'css_abbreviation', 'scanner', 'scanner_utils', 'token_scanner', 'config', 'output_stream', 'list_utils', 'expand', 'snippets']), 'EXC-RET-STR'],
      explanation='Explicit raises reachable from expand are one of the two parse errors (D, call graph). Implicit internal errors are decided by '
                  'family: missing visitor, %-format arity, join of non-strings, int()/float() of unproven text, constant-key subscripts on caller dicts.',
      not_decided=['implicit exception classes outside the listed families (AttributeError/TypeError from values the light type inference cannot see)'],
@@ -159,7 +160,7 @@ prop('C18',
 prop('C19',
      rules=['EXC-RAISE/math', 'DEC-PRIO', 'TAB-MATHOPS', ('RNG-CLAMP', ['math_expression']), ('EXC-NUMCONV', ['math_expression']),
             ('SCN-OVER', ['math_expression']), ('SCN-PROGRESS', ['math_expression']), ('SCN-REST', ['math_expression']),
-            'RNG-BALANCED', ('CNT-DEPTH', ['math_expression']), ('OWN-GLOBAL', ['math_expression'])],
+            'RNG-BALANCED', ('CNT-DEPTH', ['math_expression']), ('OWN-GLOBAL', ['math_expression']), ('EXC-INDEX', ['math_expression'])],
      explanation='Only MathExpressionException is raised explicitly (D); the precedence table satisfies the documented orderings and a prefix sign never '
                  'reduces a pending operator (N, finite table); every accepted operator has an evaluator with the right operand order (D); extract clamps its position (D).',
      not_decided=['arithmetic values'],
